@@ -1,6 +1,11 @@
 /* Accessors for TPM 2 internals that are not API-visible (DESIGN.md 3.2): compiled with the repo's own headers.
  * Only data is read/written; each use is traced by the harness. */
 #define NV_C
+#define SESSION_PROCESS_C
+#define DA_C
+#define OBJECT_C
+#define PCR_C
+#define SESSION_C
 #include "Tpm.h"
 #include <stdint.h>
 uint64_t verif_get_contextCounter(void) { return gr.contextCounter; }
@@ -20,8 +25,34 @@ uint32_t verif_nv_used(void) {
     return addr - NV_USER_DYNAMIC;
 }
 uint64_t verif_nv_maxcount(void) { return NvReadMaxCount(); }
-/* a power cycle starts a new process: library statics that are not re-read from storage start from zero */
-void verif_new_process_statics(void) { s_maxCounter = 0; }
+/* A restart or resume normally happens in a NEW process: the library's global state starts from its load-time image and
+ * only what MainInit reads from storage or SetState takes from the blobs comes back. The harness stays in one process,
+ * so it records the load-time image of the library's globals once and puts it back where a new process would begin. */
+#include "PlatformData.h"
+#include <string.h>
+#include <stdlib.h>
+typedef struct { void *p; size_t n; void *img; } VSnap;
+#define VS(x) { &(x), sizeof(x), NULL }
+static VSnap verif_snaps[] = {
+    VS(g_toTest), VS(g_exclusiveAuditSession), VS(g_time), VS(g_timeEpoch), VS(g_phEnable), VS(g_pcrReConfig), VS(g_DRTMHandle),
+    VS(g_DrtmPreStartup), VS(g_StartupLocality3), VS(g_daUsed), VS(g_updateNV), VS(g_powerWasLost), VS(g_clearOrderly), VS(g_prevOrderlyState),
+    VS(g_nvOk), VS(g_NvStatus), VS(gp), VS(go), VS(gc), VS(gr), VS(s_ContextSlotMask), VS(g_cryptoSelfTestState),
+    VS(g_initialized), VS(s_sessionHandles), VS(s_attributes), VS(s_associatedHandles), VS(s_nonceCaller), VS(s_inputAuthValues), VS(s_usedSessions),
+    VS(s_encryptSessionIndex), VS(s_decryptSessionIndex), VS(s_auditSessionIndex), VS(s_cpHashForCommandAudit), VS(s_DAPendingOnNV),
+    VS(s_selfHealTimer), VS(s_lockoutTimer), VS(s_evictNvEnd), VS(s_indexOrderlyRam), VS(s_maxCounter), VS(s_cachedNvIndex), VS(s_cachedNvRef),
+    VS(s_cachedNvRamRef), VS(s_objects), VS(s_pcrs), VS(s_sessions), VS(s_oldestSavedSession), VS(s_freeSessionSlots),
+    VS(s_failFunction), VS(s_failLine), VS(s_failCode),
+    /* platform data */
+    VS(s_realTimePrevious), VS(s_lastSystemTime), VS(s_lastReportedTime), VS(s_tpmTime), VS(s_hostMonotonicAdjustTime), VS(s_suspendedElapsedTime),
+    VS(s_timerReset), VS(s_timerStopped), VS(s_adjustRate), VS(s_NV), VS(s_NvIsAvailable), VS(s_NV_unrecoverable), VS(s_NV_recoverable), VS(s_powerLost),
+};
+void verif_snapshot_statics(void) {
+    for (size_t i = 0; i < sizeof verif_snaps / sizeof verif_snaps[0]; i++) if (!verif_snaps[i].img) { verif_snaps[i].img = malloc(verif_snaps[i].n); memcpy(verif_snaps[i].img, verif_snaps[i].p, verif_snaps[i].n); }
+}
+void verif_new_process_statics(void) {
+    for (size_t i = 0; i < sizeof verif_snaps / sizeof verif_snaps[0]; i++) if (verif_snaps[i].img) memcpy(verif_snaps[i].p, verif_snaps[i].img, verif_snaps[i].n);
+    s_maxCounter = 0;
+}
 /* C11: the secrets a saved context is protected with (read only) */
 int verif_get_proof(uint32_t hierarchy, uint8_t *out) { TPM2B_PROOF p; if (HierarchyGetProof(hierarchy, &p) != TPM_RC_SUCCESS) return -1; memcpy(out, p.t.buffer, p.t.size); return p.t.size; }
 uint64_t verif_get_totalResetCount(void) { return gp.totalResetCount; }
